@@ -7,7 +7,7 @@ theorem obj_staticBitLen (o : Obj) : (Obj.toParam o).kind.staticBitLen = some o.
   simp [Obj.toParam, Param.kind, PKind.staticBitLen, Dop.staticBitLen, Dct.staticBitLen]
 
 /-- the static length computation follows the encoder's cursor and message length -/
-theorem staticLen_encAll (ovs : List (Obj × Int)) :
+theorem staticLen_encAll (ovs : List (Obj × IVal)) :
     ∀ (s : EncState), s.origin = 0 →
       paramsStaticLen (ovs.map fun ov => ov.1.toParam) s.cursorByte s.msg.length = some (encAll ovs s).msg.length := by
   induction ovs with
@@ -24,10 +24,10 @@ theorem staticLen_encAll (ovs : List (Obj × Int)) :
 
 /-- **C08, static length (flat tier).** Whenever the flat description reports a static bit length, every
     successful encoding (overlap warning or not, whatever the values) occupies exactly that many bits. -/
-theorem static_length_flat (ovs : List (Obj × Int)) (hlen : ovs.length ≤ 4000) (values : List (String × PVal))
+theorem static_length_flat (ovs : List (Obj × IVal)) (hlen : ovs.length ≤ 4000) (values : List (String × PVal))
     (trig : Option Bytes)
-    (hok : ∀ ov ∈ ovs, ov.1.ok ∧ int32InRange ov.1.enc ov.1.bl ov.2)
-    (hlook : ∀ ov ∈ ovs, lookup ov.1.name values = some (.atom (.int ov.2)))
+    (hok : ∀ ov ∈ ovs, ov.1.ok ∧ ov.1.inRange ov.2)
+    (hlook : ∀ ov ∈ ovs, lookup ov.1.name values = some (.atom ov.2))
     (hknown : values.any (fun kv => !((ovs.map fun ov => ov.1.toParam).any fun p => p.name == kv.1)) = false)
     (pdu : Bytes) (w : Nat)
     (henc : encodeMessage none (ovs.map fun ov => ov.1.toParam) (.dict values) trig true = .ok (pdu, w)) :
